@@ -1,6 +1,7 @@
 import ArgMapper.Driver.GraphD
 import ArgMapper.Driver.SigD
 import ArgMapper.Driver.CallD
+import ArgMapper.Driver.RedefD
 open ArgMapper.Driver
 
 /-- model configuration flags passed on the command line (`key=value`) -/
@@ -17,6 +18,7 @@ def dispatch (cfg : Cfg) (b : Block) : String :=
   | "scc" => (runScc b).line b.kind b.id "C20"
   | "topo" => (runTopo b).line b.kind b.id "C20"
   | "call" => (runCall cfg.fl b).line b.kind b.id ""
+  | "redef" => (runRedef cfg.fl b).line b.kind b.id ""
   | "sig" => (runSig b).line b.kind b.id "C14"
   | "vset" => (runVset b).line b.kind b.id "C15"
   | "opts" => (runOpts b).line b.kind b.id "C16"
